@@ -195,6 +195,31 @@ impl Rank {
     }
 }
 
+#[cfg(riti_verif)]
+impl Rank {
+    /// Verification hook: `[kind, text, number]`.
+    pub(crate) fn verif_to_json(&self) -> serde_json::Value {
+        match self {
+            Rank::First(s) => serde_json::json!([0, s, 0]),
+            Rank::Emoji(s, n) => serde_json::json!([1, s, n]),
+            Rank::Other(s, n) => serde_json::json!([2, s, n]),
+            Rank::Last(s, n) => serde_json::json!([3, s, n]),
+        }
+    }
+
+    /// Verification hook: inverse of `verif_to_json`.
+    pub(crate) fn verif_from_json(v: &serde_json::Value) -> Rank {
+        let text = v[1].as_str().unwrap_or("").to_string();
+        let n = v[2].as_u64().unwrap_or(0) as u8;
+        match v[0].as_u64().unwrap_or(0) {
+            0 => Rank::First(text),
+            1 => Rank::Emoji(text, n),
+            2 => Rank::Other(text, n),
+            _ => Rank::Last(text, n),
+        }
+    }
+}
+
 impl PartialEq<&str> for Rank {
     fn eq(&self, other: &&str) -> bool {
         match self {
